@@ -136,7 +136,7 @@ func PackageFiles(fsys fs.FS, dir string, pkgQualifier string) iter.Seq2[ModuleF
 				return matchedPackages[pkgName]
 			}
 			parent := path.Dir(dir)
-			if len(parent) >= len(dir) {
+			if parent == dir {
 				// No more parent directories.
 				return
 			}
